@@ -89,8 +89,8 @@ def items(tier: str, seed: int) -> List[dict]:
     if tier == 'quick':
         its += [dict(spec=p1, d=1, priority=True, inner=True), dict(spec=q1, d=1, priority=True, inner=True), dict(spec=pq, d=1, priority=True, inner=True)]
     else:
-        its += [dict(spec=p1, d=2, priority=True, inner=True), dict(spec=q1, d=1, priority=True, inner=True),
-                dict(spec=pq, d=1, priority=True, inner=True)]
+        its += [dict(spec=p1, d=2, priority=True, inner=True), dict(spec=q1, d=2, priority=True, inner=True),
+                dict(spec=pq, d=2, priority=True, inner=True)]
         # 6. every complete auction of <= 6 calls over a 7-call alphabet, dealer and vulnerability rotating
         for k, a in enumerate(all_short_auctions(6, ['Pass', 'X', 'XX', '1C', '1H', '2C', '7NT'])):
             its.append(dict(spec=scen.mk_spec([scen.board(seed + 50 + k % 5, a, D4[k % 4], V4[(k // 4) % 4], policy=POL[k % 4])]), d=0))
